@@ -682,6 +682,15 @@ class XEval(AutoEvaluator):
                 if isinstance(n, ast.Assign) and len(n.targets) == 1 and isinstance(n.targets[0], ast.Name) and isinstance(n.value, ast.Call) \
                         and dotted(n.value.func) in ALLOCATORS:
                     self.buffers.add(n.targets[0].id)
+                # ... and so is a local a row of which (X[j]) is handed to a function of the module or to an out= parameter: the callee may fill it
+                if isinstance(n, ast.Call):
+                    own_callee = isinstance(n.func, ast.Name) and mod is not None and n.func.id in getattr(mod, "funcs", {})
+                    pnames = {x.arg for x in a.posonlyargs + a.args + a.kwonlyargs}
+                    for arg in ([k.value for k in n.keywords if k.arg == "out"] + (list(n.args) if own_callee else [])):
+                        if isinstance(arg, ast.Subscript) and isinstance(arg.value, ast.Name) and arg.value.id in self.locals_ and arg.value.id not in pnames:
+                            self.buffers.add(arg.value.id)
+                        elif isinstance(arg, ast.Name) and arg.id in self.locals_ and not own_callee and arg.id not in pnames:
+                            self.buffers.add(arg.id)
 
     # ------------------------------------------------------------------ helpers
     def _tmpname(self, v):
@@ -732,6 +741,11 @@ class XEval(AutoEvaluator):
             arrs = [m for m in x.n.t if m]
             if len(arrs) == 1 and len(arrs[0]) == 1 and arrs[0][0][1] == 1 and len(x.n.t) == 2 and sym_of(F.Rat(F.Poly.atom(arrs[0][0][0]))) is None:
                 return self.mk_len(F.Rat(F.Poly.atom(arrs[0][0][0])))       # a * X + b has the length of X
+        if not isinstance(x, (tuple, str)) and not is_unknown(x) and const_of(x) is None and x.d.is_const() and len(x.n.t) == 1 and app(x) is None:
+            (mono, _), = x.n.t.items()
+            arrays = [(a, e) for a, e in mono if not self._is_scalar(a)]
+            if len(arrays) == 1 and len(mono) >= 2 and sym_of(F.Rat(F.Poly.atom(arrays[0][0]))) is None:
+                return self.mk_len(F.Rat(F.Poly.atom(arrays[0][0])))       # s * X (s a number) has the length of X
         u = app(x)
         if u is not None and u[0] == "zip" and u[1] and not any(isinstance(a, str) for a in u[1]):
             return self._zip_len([untuple(a) for a in u[1]])
@@ -816,6 +830,10 @@ class XEval(AutoEvaluator):
             r = self._idx_comp(base, u, ix)
             if r is not None:
                 return r
+        if u is None and not isinstance(base, (tuple, str)) and not is_unknown(base) and const_of(base) is None:
+            r = self._idx_scaled(base, ix)
+            if r is not None:
+                return r
         u = app(base, "idx")
         if u is not None and not isinstance(u[1][0], str) and not isinstance(u[1][1], str):
             b0, i0 = u[1]
@@ -833,6 +851,35 @@ class XEval(AutoEvaluator):
                     new = first[:-1] + [ix + clo]
                     return F.fn("idx", b0, new[0] if len(new) == 1 else F.fn("tuple", *new))
         return F.fn("idx", need(base), ix)
+
+    SCALAR_CALLS = {"call:np.max", "call:np.min", "call:np.sum", "call:np.mean", "call:np.var", "call:np.std", "call:np.ptp", "call:np.argmax", "call:np.argmin", "len",
+                    "call:float", "call:int", "call:np.median", "call:np.prod"}
+
+    def _is_scalar(self, a):
+        """an atom that is one number whatever it is computed from: a full reduction (no axis), the length of something, a power of those"""
+        av = F.Rat(F.Poly.atom(a))
+        u = app(av)
+        if u is None:
+            return False
+        if u[0] in self.SCALAR_CALLS:
+            return not any(isinstance(x, str) or (app(x) or ("",))[0].startswith("kw:axis") for x in u[1]) and len([x for x in u[1] if not (app(x) or ("",))[0].startswith("kw:")]) == 1
+        if u[0] == "abs" and len(u[1]) == 1 and single_atom(u[1][0]) is not None:
+            return self._is_scalar(single_atom(u[1][0]))
+        return False
+
+    def _idx_scaled(self, base, ix):
+        """(c * s * X)[k] is c * s * X[k] for numbers c, s (s a full reduction) and one array X"""
+        if not base.d.is_const() or len(base.n.t) != 1:
+            return None
+        (mono, coef), = base.n.t.items()
+        arrays = [(a, e) for a, e in mono if not self._is_scalar(a)]
+        if len(arrays) != 1 or arrays[0][1] != 1 or len(mono) < 2:
+            return None
+        rest = F.const(coef / base.d.const_value())
+        for a, e in mono:
+            if a != arrays[0][0]:
+                rest = rest * F.Rat(F.Poly.atom(a)) ** e
+        return self.mk_idx(F.Rat(F.Poly.atom(arrays[0][0])), ix) * rest
 
     def _idx_comp(self, base, u, ix):
         """[f(j) for j in range(n)][k] is f(k);  np.array([[a(j), b(j)] for j ...])[:, 1] is [b(j) for j ...];  [j, 1] is b(j)"""
@@ -1165,6 +1212,14 @@ class XEval(AutoEvaluator):
             if du is not None and not any(isinstance(x, str) for x in du[1]):
                 ks, vs = [untuple(k) for k in du[1][0::2]], [untuple(v) for v in du[1][1::2]]
                 return tuple(zip(ks, vs)) if node.func.attr == "items" else tuple(ks if node.func.attr == "keys" else vs)
+        if isinstance(node, ast.Call) and not node.keywords and dotted(node.func) == "range" and 1 <= len(node.args) <= 2 \
+                and all(isinstance(a, (ast.Constant, ast.Name)) or (isinstance(a, ast.Call) and dotted(a.func) == "len") for a in node.args):
+            cs = [const_of(self.ev(a)) for a in node.args]
+            if all(c is not None and c.denominator == 1 for c in cs):
+                lo, hi = (0, int(cs[0])) if len(cs) == 1 else (int(cs[0]), int(cs[1]))
+                if 0 <= hi - lo <= 12:
+                    return tuple(F.const(k) for k in range(lo, hi))         # range(3) / range(len((4, 8, 12)))
+            return None
         if isinstance(node, ast.Call) and not node.keywords and dotted(node.func) in ("zip", "enumerate", "reversed", "list", "tuple") and node.args:
             parts = [self._literal_iter(a) for a in node.args]
             if any(p is None for p in parts):
@@ -2141,6 +2196,10 @@ class XEval(AutoEvaluator):
         else:
             vw = self._view(cur)
             if vw is None:
+                if self.inline_depth > 0 and self.fn is not None and name in {x.arg for x in self.fn.args.posonlyargs + self.fn.args.args} \
+                        and app(cur, "idx") is not None and not self._is_scalar(single_atom(cur)):
+                    # `row *= a` on a parameter bound to X[j] with X not an array this evaluation tracks: if it is a row, the caller's X changes
+                    self.tr.lost.append((f"in-place update of the parameter `{name}`, which holds {cur!r}"[:200], st))
                 return False
             s, ix = vw
             nsc = sum(1 for x in ix if app(x, "slice") is None)
